@@ -227,10 +227,6 @@ def check_board(inp, mods, rng=None):
                 diff = [k for k in ('game_a', 'game_b', 'game_c') if not isinstance(mgames, dict) or mgames.get(k) != games.get(k)]
                 F.append(({'C08', 'C11'}, 'manual-entry-same-games', f'create_sg_from_board({board!r}, robot={probs[1]}, light={probs[2]}, tile={probs[0]}) emits different {diff} '
                           f'than write_robots on the same board and probabilities (file {mname!r})'))
-            else:
-                Ln_, W_ = len(board[0]), len(board[0][0])
-                if not (isinstance(mname, str) and mname.startswith('inputs/manual_robot_w%d_l%d_r%d_' % (W_, Ln_, max(max(r) for r in board[1]))) and mname.endswith('.py')):
-                    F.append(({'C08', 'C11'}, 'manual-entry-name', f'create_sg_from_board names the file {mname!r} for a {Ln_}x{W_} board with maximum reward {max(max(r) for r in board[1])}'))
         except BaseException as e:   # noqa
             F.append(({'C08', 'C11'}, 'manual-entry-runs', f'create_sg_from_board failed with {type(e).__name__}: {str(e)[:200]} for board {board!r}'))
     tad = mods['tad']
